@@ -23,9 +23,22 @@ pub fn gen_steps(t: &mut Tape, len: usize, max: usize) -> Vec<Step> {
         .collect()
 }
 
-/// nums = [remaining length]: a body-less packet, a PUBLISH of exactly that remaining length and a
-/// small packet back to back (the 2 MiB header-width boundary in the middle of a stream)
+// nums = [remaining length, wide?]: a body-less packet, a PUBLISH of exactly that remaining length and a
+// small packet back to back (the 2 MiB header-width boundary in the middle of a stream)
+thread_local! {
+    /// set by `sized_sequence` for inputs whose second number is 1: some frames get a wider header than necessary
+    static WIDE_HEADERS: std::cell::Cell<bool> = const { std::cell::Cell::new(false) };
+}
+
 fn sized_sequence<F: Family>(input: &Input, ctx: &mut Ctx) -> CaseResult {
+    let wide = input.nums().get(1).copied() == Some(1);
+    WIDE_HEADERS.with(|c| c.set(wide));
+    let r = sized_sequence_inner::<F>(input, ctx);
+    WIDE_HEADERS.with(|c| c.set(false));
+    r
+}
+
+fn sized_sequence_inner<F: Family>(input: &Input, ctx: &mut Ctx) -> CaseResult {
     let rl = input.nums().first().copied().unwrap_or(4) as usize;
     let seed: Vec<u16> = vec![(rl as u16).wrapping_mul(31), 0x9000, 0x2000, 0xE000, 0x5000, 0xB000, 0x1000, 0xF000, 0x7000, 0x3000];
     let mut t = Tape::new(&seed);
@@ -123,6 +136,23 @@ fn check_sequence_spelled<F: Family>(pkts: Vec<F::Packet>, big: bool, spelled: b
         }
         encs.push(e);
     }
+    // wide headers: the remaining length of some frames is written in more bytes than necessary (accepted by every
+    // front-end, grammar L9); everything that is computed from the header's width has to follow
+    if WIDE_HEADERS.with(|c| c.get()) {
+        for (i, e) in encs.iter_mut().enumerate() {
+            if let Ok((hl, rl)) = crate::refdec::frame_bounds(e) {
+                let extra = if i == 1 || t.flag() { 1 + t.pick(4 - (hl - 1)).min(2) } else { 0 };
+                if hl - 1 < 4 && extra > 0 {
+                    let mut f = vec![e[0]];
+                    crate::model::write_varint(&mut f, rl as u32, ((hl - 1 + extra).min(4)) as u8);
+                    f.extend_from_slice(&e[hl..]);
+                    *e = f;
+                    ctx.label("wide-header-frame");
+                }
+            }
+        }
+    }
+    let spelled = spelled || WIDE_HEADERS.with(|c| c.get());
     let stream: Vec<u8> = encs.concat();
 
     // blocking, advancing by encode_len() and, independently, by the header's remaining length
@@ -171,7 +201,8 @@ fn check_sequence_spelled<F: Family>(pkts: Vec<F::Packet>, big: bool, spelled: b
         };
         let (hl, rl) = refdec::frame_bounds(&stream[off2..]).map_err(|e| Violation::new(format!("stream has no header at {}: {:?}", off2, e)))?;
         match mqtt_proto::total_len(rl) {
-            Ok(tl) => ensure!(tl == hl + rl, "total_len({}) = {} but the frame is {} bytes", rl, tl, hl + rl),
+            // (total_len speaks about the minimal spelling of the header)
+            Ok(tl) => ensure!(tl == hl + rl || hl - 1 > crate::model::varint_min_width(rl as u32), "total_len({}) = {} but the frame is {} bytes", rl, tl, hl + rl),
             Err(e) => viol!("total_len({}) failed: {:?}", rl, e),
         }
         off2 += hl + rl;
@@ -441,11 +472,14 @@ pub fn run(env: &mut Env) -> RunResult {
     let sizes: Vec<Input> = [126u64, 127, 128, 129, 16_382, 16_383, 16_384, 16_385, 16_386, 2_097_150, 2_097_151, 2_097_152, 2_097_153, 2_097_154, 2_097_155, 2_097_156]
         .iter()
         .map(|x| Input::Nums(vec![*x]))
+        .chain([100u64, 127, 128, 16_383, 16_384, 65_535, 65_536, 66_000, 70_000, 131_072, 1_048_577, 2_097_151].iter().map(|x| Input::Nums(vec![*x, 1])))
         .collect();
     let k = sizes.len() as u64;
     let z = sizes.clone();
     env.run_enum(SUB_Z3, k, false, move |i| z[i as usize].clone())?;
     env.run_enum(SUB_Z5, k, false, move |i| sizes[i as usize].clone())?;
+    env.require("c08.sized.v3", "wide-header-frame");
+    env.require("c08.sized.v5", "wide-header-frame");
     env.run_tapes(SUB_DH3, n / 4, 400)?;
     env.run_tapes(SUB_DH5, n / 4, 600)?;
     env.require("c08.history.v3", "complete-after-abandon");
